@@ -1,6 +1,7 @@
 import ChythonModel.Py.Wire
 import ChythonModel.Model.C20Bridge
 import ChythonModel.Model.C20Conformers
+import ChythonModel.Model.C20FromFinal
 /-!
 Line-protocol driver for C20. Every request is `<op> <int> …`; `-1` = `None`; enum members travel as their position in the
 generated constructor list (`RdBondType.all` …), which is RDKit's own value order.
@@ -19,6 +20,8 @@ generated constructor list (`RdBondType.all` …), which is RDKit's own value or
   rt    keep CMOL           from(to(m)) with RDKit taken as the identity on the transferred fields           → CMOL
   CONFS = k (len (n x y z)×len)×k        `_conformers`: dicts in their own order
   RCONFS = k (is3D len (x y z)×len)×k    RDKit conformers
+  TABLE = k (nl (kind a b s)×nl  nu (kind a b)×nu)×k   chiral_* oracle: label set ↦ units reported chiral (kind 0 tetra, 1 allene, 2 cis-trans)
+  fromf RMOL NBRS TABLE                  from_rdkit_molecule to its return value (fix_stereo over the table)  → CMOL | rounds=<n>, or `err oracle-missing`
   toc   N id×N (x y)×N has [CONFS]       the conformers `to_rdkit_molecule` attaches                      → RCONFS
   fromc N RCONFS                         `xy` and `_conformers` read by `from_rdkit_molecule`             → hasxy (x y)×N has [CONFS]
 Response: `ok …` or `err <PythonExceptionName>`; `bad` for a malformed request line.
@@ -151,6 +154,29 @@ def showFromConfs (r : Option (List (Int × Int)) × Option (List (List (Nat × 
     | some l => "1 " ++ showConfs l
   a ++ " " ++ b
 
+open ChythonModel.Model.StereoFix in
+def pKind : P Kind := do
+  let i ← nextN
+  pure (if i == 0 then .tetra else if i == 1 then .allene else .cisTrans)
+
+open ChythonModel.Model.StereoFix in
+def pTable : P (List (List Label × List SUnit)) := do
+  let k ← nextN
+  rep k (do
+    let nl ← nextN
+    let ls ← rep nl (do let kd ← pKind; let a ← nextN; let b ← nextN; let sg ← nextN; pure ((⟨kd, a, b⟩, sg != 0) : Label))
+    let nu ← nextN
+    let us ← rep nu (do let kd ← pKind; let a ← nextN; let b ← nextN; pure (⟨kd, a, b⟩ : SUnit))
+    pure (ls, us))
+
+open ChythonModel.Model.StereoFix in
+def showFinal (tab : List (List Label × List SUnit)) : Except BErr (CMol × Option Out) → String
+  | .error e => "err " ++ e.name
+  | .ok (c, none) => "ok " ++ showCMol c ++ " | rounds=-1"
+  | .ok (c, some o) =>
+    if o.asked.any (fun q => (tab.lookup q).isNone) then "err oracle-missing"
+    else "ok " ++ showCMol c ++ s!" | rounds={o.asked.length}"
+
 def run (op : String) : P String := do
   match op with
   | "env" => do
@@ -171,6 +197,9 @@ def run (op : String) : P String := do
   | "rt" => do
     let keep ← nextN; let c ← pCMol
     pure (fin showCMol (roundTrip c (keep != 0)))
+  | "fromf" => do
+    let r ← pRMol; let nb ← pNbrs r.atoms.length; let tab ← pTable
+    pure (showFinal tab (fromRdFinal r nb (ChythonModel.Model.StereoFix.tableOracle tab)))
   | "toc" => do
     let n ← nextN; let ids ← rep n nextN
     let xy ← rep n (do let x ← nextI; let y ← nextI; pure (x, y))
